@@ -42,6 +42,10 @@ type Event struct {
 	Unknown []string        `json:"unknown"`
 	Panic   string          `json:"panic"`
 	TTL     string          `json:"ttl"` // where a transaction TTL of 60 days is configured: "" (nowhere) | "local" | "global"
+	// gc only: the machine's time zone (hours east of UTC) and whether the ages of the transactions lie three
+	// hours from the TTL instead of days (what is expired and what is not does not depend on the zone)
+	Zone int  `json:"zone"`
+	Near bool `json:"near"`
 }
 
 func newEvent(op, mode string) *Event {
@@ -66,12 +70,14 @@ type repoDesc struct {
 	Refs   []refDecl
 	Before Objs // non-commit objects to copy from the template (+ all commits)
 	TTL    string
+	Zone   int
+	Near   bool
 }
 
 func (d *repoDesc) event() *Event {
 	e := newEvent("repo", d.Mode)
 	e.N, e.Par, e.Tab, e.Blk = d.N, d.Par, d.Tab, d.Blk
-	e.TTL = d.TTL
+	e.TTL, e.Zone, e.Near = d.TTL, d.Zone, d.Near
 	for _, r := range d.Refs {
 		e.Refs = append(e.Refs, []interface{}{r.Kind, r.C, r.State})
 	}
@@ -79,7 +85,7 @@ func (d *repoDesc) event() *Event {
 }
 
 func descFromEvent(e *Event) (*repoDesc, error) {
-	d := &repoDesc{Mode: e.Mode, N: e.N, Par: e.Par, Tab: e.Tab, Blk: e.Blk, Before: e.Objs, TTL: e.TTL}
+	d := &repoDesc{Mode: e.Mode, N: e.N, Par: e.Par, Tab: e.Tab, Blk: e.Blk, Before: e.Objs, TTL: e.TTL, Zone: e.Zone, Near: e.Near}
 	for _, r := range e.Refs {
 		if len(r) != 3 {
 			return nil, fmt.Errorf("bad ref %v", r)
@@ -190,6 +196,12 @@ func randomRepo(rng *rand.Rand, blk [][]int, mode string) *repoDesc {
 	}
 	if mode == "gc" {
 		gcRepos++
+		d.Zone = []int{0, -8, 9, -3}[(gcRepos/2)%4]
+		d.Near = gcRepos%2 == 1
+		if d.Near {
+			// a transaction that is open and three hours short of its TTL: its refs are roots
+			d.Refs = append(d.Refs, refDecl{"txn", 1 + rng.Intn(d.N), 1})
+		}
 	}
 	if mode == "gc" && gcRepos%3 != 0 {
 		// a transaction TTL of 60 days configured in the repository or in the user's (global) configuration: a
@@ -320,6 +332,16 @@ func execute(u *Universe, d *repoDesc, scratch string) ([]*Event, error) {
 		}
 	}
 	gone := map[string]bool{}
+	if d.Mode == "gc" && d.Zone != 0 {
+		// the zone of the machine: the ref store keeps the begin of a transaction as the local wall clock
+		oldLocal := time.Local
+		time.Local = time.FixedZone(fmt.Sprintf("Z%+d", d.Zone), d.Zone*3600)
+		defer func() { time.Local = oldLocal }()
+	}
+	ttlDays := 30 // conf.DefaultTransactionTTL
+	if d.TTL != "" {
+		ttlDays = 60
+	}
 	for i, r := range d.Refs {
 		begin := time.Now()
 		if r.State == 2 {
@@ -327,6 +349,12 @@ func execute(u *Universe, d *repoDesc, scratch string) ([]*Event, error) {
 			if d.TTL != "" {
 				begin = begin.Add(-30 * 24 * time.Hour) // ... and than the configured 60 days
 			}
+			if d.Near {
+				begin = time.Now().Add(-time.Duration(ttlDays)*24*time.Hour - 3*time.Hour)
+			}
+		}
+		if r.State == 1 && r.Kind == "txn" && d.Near {
+			begin = time.Now().Add(-time.Duration(ttlDays)*24*time.Hour + 3*time.Hour)
 		}
 		if r.State == 3 {
 			begin = begin.Add(-40 * 24 * time.Hour)
